@@ -254,6 +254,7 @@ class Site:
         import web.front_end as front_end
         self.fe = front_end.FrontEnd()
         self.manifest = manifest
+        sys.modules['flask'].request.headers = dict(self.CLIENTS['desktop'])
         self.entries = {effective_path(e): e for e in manifest}
         # model
         self.jobs = []          # every job ever created: dict
@@ -353,6 +354,16 @@ class Site:
     def page(self, name):
         self.history.append(('page', name))
         getattr(self.fe, name)()
+
+    CLIENTS = {'desktop': {'User-Agent': 'Mozilla/5.0 (X11; Linux)'},
+               'tv': {'User-Agent': 'Mozilla/5.0 (SmartTV; Tizen)'},
+               'mobile': {'User-Agent': 'Mozilla/5.0 (iPhone; like Mac)'},
+               # a header a client is free to leave out (scripts, probes)
+               'no-user-agent': {}}
+
+    def client(self, kind):
+        self.history.append(('client', kind))
+        sys.modules['flask'].request.headers = dict(self.CLIENTS[kind])
 
     def complete(self, choice):
         alive = [t for t in FakeThread.registry if t.is_alive()]
@@ -526,6 +537,11 @@ def machine_class(acc):
         def complete(self, choice):
             self.guard(lambda: self.site.complete(choice))
 
+        @rule(kind=st.sampled_from(['desktop', 'tv', 'mobile',
+                                    'no-user-agent']))
+        def another_client(self, kind):
+            self.guard(lambda: self.site.client(kind))
+
         def guard(self, action, label='request'):
             if self.site is None or self.failed:
                 return
@@ -589,6 +605,8 @@ def replay_history(acc, manifest, history):
                         site.complete(names.index(step[1]))
                 elif kind == 'page':
                     site.page(step[1])
+                elif kind == 'client':
+                    site.client(step[1])
             except Exception as ex:
                 acc.fail('request-raised:' + type(ex).__name__,
                          '{} raised {!r}'.format(step, ex),
